@@ -36,42 +36,30 @@ theorem enum_ifft_mk_false : enumOk .ifft (.key .maskedKspace) false = true := b
 theorem enum_ifft_mk_true : enumOk .ifft (.key .maskedKspace) true = true := by decide +kernel
 theorem enum_ifft_ks_false : enumOk .ifft (.key .kspace) false = true := by decide +kernel
 theorem enum_ifft_ks_true : enumOk .ifft (.key .kspace) true = true := by decide +kernel
-theorem enum_ifft_bc_false : enumOk .ifft (.key .bodyCoilImage) false = true := by decide +kernel
-theorem enum_ifft_bc_true : enumOk .ifft (.key .bodyCoilImage) true = true := by decide +kernel
 theorem enum_rss_mk_false : enumOk .rss (.key .maskedKspace) false = true := by decide +kernel
 theorem enum_rss_mk_true : enumOk .rss (.key .maskedKspace) true = true := by decide +kernel
 theorem enum_rss_ks_false : enumOk .rss (.key .kspace) false = true := by decide +kernel
 theorem enum_rss_ks_true : enumOk .rss (.key .kspace) true = true := by decide +kernel
-theorem enum_rss_bc_false : enumOk .rss (.key .bodyCoilImage) false = true := by decide +kernel
-theorem enum_rss_bc_true : enumOk .rss (.key .bodyCoilImage) true = true := by decide +kernel
 theorem enum_complex_mk_false : enumOk .complex (.key .maskedKspace) false = true := by decide +kernel
 theorem enum_complex_mk_true : enumOk .complex (.key .maskedKspace) true = true := by decide +kernel
 theorem enum_complex_ks_false : enumOk .complex (.key .kspace) false = true := by decide +kernel
 theorem enum_complex_ks_true : enumOk .complex (.key .kspace) true = true := by decide +kernel
-theorem enum_complex_bc_false : enumOk .complex (.key .bodyCoilImage) false = true := by decide +kernel
-theorem enum_complex_bc_true : enumOk .complex (.key .bodyCoilImage) true = true := by decide +kernel
 theorem enum_complexMod_mk_false : enumOk .complexMod (.key .maskedKspace) false = true := by decide +kernel
 theorem enum_complexMod_mk_true : enumOk .complexMod (.key .maskedKspace) true = true := by decide +kernel
 theorem enum_complexMod_ks_false : enumOk .complexMod (.key .kspace) false = true := by decide +kernel
 theorem enum_complexMod_ks_true : enumOk .complexMod (.key .kspace) true = true := by decide +kernel
-theorem enum_complexMod_bc_false : enumOk .complexMod (.key .bodyCoilImage) false = true := by decide +kernel
-theorem enum_complexMod_bc_true : enumOk .complexMod (.key .bodyCoilImage) true = true := by decide +kernel
 theorem enum_sense_mk_false : enumOk .sense (.key .maskedKspace) false = true := by decide +kernel
 theorem enum_sense_mk_true : enumOk .sense (.key .maskedKspace) true = true := by decide +kernel
 theorem enum_sense_ks_false : enumOk .sense (.key .kspace) false = true := by decide +kernel
 theorem enum_sense_ks_true : enumOk .sense (.key .kspace) true = true := by decide +kernel
-theorem enum_sense_bc_false : enumOk .sense (.key .bodyCoilImage) false = true := by decide +kernel
-theorem enum_sense_bc_true : enumOk .sense (.key .bodyCoilImage) true = true := by decide +kernel
 theorem enum_senseMod_mk_false : enumOk .senseMod (.key .maskedKspace) false = true := by decide +kernel
 theorem enum_senseMod_mk_true : enumOk .senseMod (.key .maskedKspace) true = true := by decide +kernel
 theorem enum_senseMod_ks_false : enumOk .senseMod (.key .kspace) false = true := by decide +kernel
 theorem enum_senseMod_ks_true : enumOk .senseMod (.key .kspace) true = true := by decide +kernel
-theorem enum_senseMod_bc_false : enumOk .senseMod (.key .bodyCoilImage) false = true := by decide +kernel
-theorem enum_senseMod_bc_true : enumOk .senseMod (.key .bodyCoilImage) true = true := by decide +kernel
 
 theorem enum_all (r : Recon) (sk : ScalingKey) (ssl : Bool)
-    (hsk : sk = .key .maskedKspace ∨ sk = .key .kspace ∨ sk = .key .bodyCoilImage) : enumOk r sk ssl = true := by
-  rcases hsk with rfl | rfl | rfl <;> cases r <;> cases ssl
+    (hsk : sk = .key .maskedKspace ∨ sk = .key .kspace) : enumOk r sk ssl = true := by
+  rcases hsk with rfl | rfl <;> cases r <;> cases ssl
   · exact enum_ifft_mk_false
   · exact enum_ifft_mk_true
   · exact enum_rss_mk_false
@@ -96,17 +84,5 @@ theorem enum_all (r : Recon) (sk : ScalingKey) (ssl : Bool)
   · exact enum_sense_ks_true
   · exact enum_senseMod_ks_false
   · exact enum_senseMod_ks_true
-  · exact enum_ifft_bc_false
-  · exact enum_ifft_bc_true
-  · exact enum_rss_bc_false
-  · exact enum_rss_bc_true
-  · exact enum_complex_bc_false
-  · exact enum_complex_bc_true
-  · exact enum_complexMod_bc_false
-  · exact enum_complexMod_bc_true
-  · exact enum_sense_bc_false
-  · exact enum_sense_bc_true
-  · exact enum_senseMod_bc_false
-  · exact enum_senseMod_bc_true
 
 end DirectVerif.Pipeline
